@@ -14,7 +14,16 @@ def replay(path):
     rec = json.load(open(path))
     prop = rec['property']
     print('replaying %s: %s' % (prop, rec.get('obligation')))
-    if rec.get('inputs'):
+    if rec.get('inputs') and isinstance(rec['inputs'], dict) and 'case' in rec['inputs']:
+        import cesearch, driver as _d
+        sc = os.path.join(_d.SCRATCH_ROOT, 'replayce-%d' % os.getpid())
+        os.makedirs(sc, exist_ok=True)
+        try:
+            cesearch.replay_case(rec, sc)
+        finally:
+            import shutil as _sh
+            _sh.rmtree(sc, ignore_errors=True)
+    elif rec.get('inputs'):
         print('counterexample recorded by the verifier:')
         print(rec['inputs'])
     if 'kani' in os.path.basename(path):
